@@ -50,6 +50,7 @@ func checkDefs() map[string]*CheckDef {
 					{Name: "required", Pkg: ioc + "/component_definition", Entry: "VerifC19Required", Params: map[string]int{"N": tierPick(tier, 4, 5)}, MustCover: []string{"parsed"}},
 					{Name: "faithful", Pkg: ioc + "/component_definition", Entry: "VerifC19Faithful", Params: map[string]int{"L": tierPick(tier, 1, 2)}, MustCover: []string{"bracketed item", "bracketed value", "several valued arguments"}},
 					{Name: "required-faithful", Pkg: ioc + "/component_definition", Entry: "VerifC19RequiredFaithful", Params: map[string]int{"X": 5}, MustCover: []string{"optional"}},
+					{Name: "prop-shorthand", Pkg: ioc + "/container/processors", Entry: "VerifC09ValueSequence", MustCover: []string{"all required values present"}},
 				}
 			},
 			LevelText: "Bounded symbolic model checking of TagArg.Parse/Set/Has/Find, NewProperty, IsRequired and the real strings2.Split/Index SSA over every byte string of length <= N: no path panics (every implicit bounds check is a solver obligation).",
@@ -159,7 +160,7 @@ func checkDefs() map[string]*CheckDef {
 			Runs: func(tier string) []RunSpec {
 				return []RunSpec{
 					{Name: "run", Pkg: app, Entry: "VerifC13", Params: map[string]int{"N": tierPick(tier, 3, 4), "FAULTS": 1}, MustCover: []string{"all runners ok", "runner failed", "start-up fault"}},
-					{Name: "integration", Pkg: app, Entry: "VerifAppIntegration", Params: map[string]int{"N": tierPick(tier, 3, 4), "R": 2}, MustCover: []string{"start ok", "component init fails", "lazy runner"}, Opts: ExecOpts{Sched: "seq", PermuteRange: tier == "thorough", PermuteCoarse: true}},
+					{Name: "integration", Pkg: app, Entry: "VerifAppIntegration", Params: map[string]int{"N": tierPick(tier, 3, 4), "R": 2}, MustCover: []string{"start ok", "component init fails", "lazy runner", "initialization of a lazy runner fails"}, Opts: ExecOpts{Sched: "seq", PermuteRange: tier == "thorough", PermuteCoarse: true}},
 				}
 			},
 			LevelText: "Bounded symbolic model checking of the real App.run/initConfiguration/initFactory/refresh/callRunners with a logging stub factory: for every multiset of up to N runners (three classes, unconstrained 64-bit Order), every choice of failing runner and every failing start-up phase: no runner before refresh finished, each at most once and in the ordering contract's sequence, exactly once if none fails, nothing after a failing runner, run returns an error exactly when something failed.",
@@ -192,7 +193,7 @@ func checkDefs() map[string]*CheckDef {
 				rs := []RunSpec{
 					{Name: "structured", Pkg: prc, Entry: "VerifC16Structured", Params: map[string]int{"L": 1, "D": 2, "V": tierPick(tier, 2, 3)}, MustCover: []string{"configured value used", "default used", "absent without default", "default containing a colon"}, Opts: t},
 					{Name: "nested", Pkg: prc, Entry: "VerifC16Nested", MustCover: []string{"nested key present", "nested key absent"}, Opts: t},
-					{Name: "cyclic", Pkg: prc, Entry: "VerifC16Cyclic", MustCover: []string{"circular reference reported as an error", "resolution terminates"}, Opts: t},
+					{Name: "cyclic", Pkg: prc, Entry: "VerifC16Cyclic", Params: map[string]int{"TAGS": tierPick(tier, 2, 3)}, MustCover: []string{"circular reference reported as an error", "resolution terminates", "acyclic references (chains and diamonds)"}, Opts: t},
 					rh("placeholder-in-wire-tag", "VerifC07", map[string]int{"K": 1, "PORDER": 0}, "name given through a placeholder"),
 					{Name: "total", Pkg: prc, Entry: "VerifC16Total", Params: map[string]int{"N": 5, "M": 1}, MustCover: []string{"resolution terminates"}, Opts: t},
 				}
@@ -215,6 +216,9 @@ func checkDefs() map[string]*CheckDef {
 			Runs: func(tier string) []RunSpec {
 				return []RunSpec{
 					rh("types", "VerifC06", map[string]int{"K": tierPick(tier, 2, 3), "PORDER": 0}, "start ok", "start failed", "several candidates"),
+					rh("re-attempt-after-transient-failure", "VerifC06", map[string]int{"K": 2, "PORDER": 0, "FLAKY": 1}, "start ok", "creation re-attempted after a transient failure"),
+					rh("candidates-nominated-twice", "VerifC06", map[string]int{"K": 2, "PORDER": 0, "DUPPROC": 1}, "start ok", "candidates nominated by two processors"),
+					rh("sealed-interface", "VerifC06Sealed", nil, "sealed interface"),
 					rh("func-returns", "VerifC06Returns", map[string]int{"K": tierPick(tier, 2, 3)}, "both func points populated"),
 					rh("declining-user-processor", "VerifC06", map[string]int{"K": 1, "PORDER": 0, "PROC0": 1}, "start ok", "start failed"),
 					rh("same-named-types", "VerifC06SameName", map[string]int{"K": tierPick(tier, 2, 3)}, "two same-named interface types"),
@@ -227,7 +231,7 @@ func checkDefs() map[string]*CheckDef {
 			Runs: func(tier string) []RunSpec {
 				return []RunSpec{
 					{Name: "register", Pkg: fac, Entry: "VerifC07Register", Params: map[string]int{"K": 3, "L": tierPick(tier, 1, 2)}, MustCover: []string{"duplicate rejected", "same-named types of different packages", "stateless components sharing a name"}, Opts: ExecOpts{PermuteRange: true}},
-					rh("by-name", "VerifC07", map[string]int{"K": tierPick(tier, 2, 3)}, "named component found", "named component has an incompatible type", "optional point, no such component", "name given through a placeholder"),
+					rh("by-name", "VerifC07", map[string]int{"K": tierPick(tier, 2, 3)}, "named component found", "named component has an incompatible type", "optional point, no such component", "name given through a placeholder", "field holds a built-in default before start-up"),
 					rh("peers-of-the-holders-type", "VerifC07Peers", nil, "peer of the holder's own type"),
 					rh("several-named-points", "VerifC07Fields", nil, "absent optional name next to other points"),
 					rh("symbolic-names", "VerifC07Symbolic", nil, "first name requested", "second name requested", "no such name"),
@@ -258,10 +262,11 @@ func checkDefs() map[string]*CheckDef {
 					rh("required-vs-optional-by-name", "VerifC07", map[string]int{"K": 2}, "optional point, no such component"),
 					{Name: "run-phases-and-runners", Pkg: app, Entry: "VerifC13", Params: map[string]int{"N": 2, "FAULTS": 1}, MustCover: []string{"start-up fault", "runner failed"}},
 					{Name: "loaders", Pkg: ioc + "/configure", Entry: "VerifC15Load", Params: map[string]int{"N": 3}, MustCover: []string{"loader failed"}},
-					{Name: "integration", Pkg: app, Entry: "VerifAppIntegration", Params: map[string]int{"N": 2, "R": 1}, MustCover: []string{"component init fails"}, Opts: ExecOpts{Sched: "seq"}},
+					{Name: "integration", Pkg: app, Entry: "VerifAppIntegration", Params: map[string]int{"N": 2, "R": 2}, MustCover: []string{"component init fails", "initialization of a lazy runner fails"}, Opts: ExecOpts{Sched: "seq"}},
 					{Name: "failing-definition-scanners", Pkg: fac, Entry: "VerifC20Scan", Params: map[string]int{"N": 3}, MustCover: []string{"several scanners fail at the same time"}, Opts: ExecOpts{Sched: "join", Races: true}},
 					rh("declining-user-processor", "VerifC06", map[string]int{"K": 1, "PORDER": 0, "PROC0": 1}, "start ok", "start failed"),
 					{Name: "configuration-values", Pkg: prc, Entry: "VerifC09Values", MustCover: []string{"required value missing", "optional value missing", "value present"}},
+					{Name: "value-sequence", Pkg: prc, Entry: "VerifC09ValueSequence", MustCover: []string{"a required value is missing after optional ones", "all required values present"}},
 				}
 			},
 			LevelText: "Bounded symbolic model checking of three harness groups, faults injected one at a time and in pairs as solver-chosen bits: (1) every AfterPropertiesSet/Init/post-processor callback of the real factory fails on demand -> Refresh returns an error, never panics, ends within the step budget; (2) required vs optional wire points with present/absent candidates through the real resolution processors -> error iff a required point is unsatisfied, optional points stay at their zero value, no panic escapes; (3) the real App.run with failing configuration/prepare/refresh phases, loaders and runners -> run returns an error and no runner is invoked.",
@@ -301,7 +306,8 @@ func checkDefs() map[string]*CheckDef {
 					{Name: "stage-order", Pkg: prc, Entry: "VerifC18Order", Params: map[string]int{"EXTRA": tierPick(tier, 1, 2)}, MustCover: []string{"sorted"}},
 					{Name: "expression-data-flow", Pkg: prc, Entry: "VerifC18Expr", MustCover: []string{"evaluated", "literal text before the expression", "placeholder nested in a placeholder inside the expression"}},
 					{Name: "numeric-expression-family", Pkg: prc, Entry: "VerifC18ExprNumbers", MustCover: []string{"numeric expression evaluated", "boolean result"}},
-					{Name: "validation-glue", Pkg: prc, Entry: "VerifC18Validate", Params: map[string]int{"N": tierPick(tier, 3, 4)}, MustCover: []string{"constraint violated", "constraint satisfied"}},
+					{Name: "validation-glue", Pkg: prc, Entry: "VerifC18Validate", Params: map[string]int{"N": tierPick(tier, 3, 4)}, MustCover: []string{"constraint violated", "constraint satisfied", "validated value bound by prefix"}},
+					{Name: "several-expressions", Pkg: prc, Entry: "VerifC18MultiExpr", MustCover: []string{"several expressions in one tag"}},
 					{Name: "struct-validation", Pkg: prc, Entry: "VerifC18ValidateStruct", MustCover: []string{"struct constraint violated", "struct constraint satisfied", "only the required nested struct is empty"}},
 				}
 			},
